@@ -337,4 +337,30 @@ theorem natBEpad_inj (len a b : Nat) (h : natBEpad len a = natBEpad len b) : a =
 theorem natBE_inj (a b : Nat) (h : natBE a = natBE b) : a = b := by
   rw [← beNat_natBE a, h, beNat_natBE]
 
+/-! ### generic `getD` / `take` / `drop` facts (used by the DER parser proofs) -/
+
+theorem getD_take {α} (l : List α) (i n : Nat) (d : α) (h : i < n) :
+    (l.take n).getD i d = l.getD i d := by
+  simp only [List.getD_eq_getElem?_getD, List.getElem?_take_of_lt h]
+
+theorem getD_drop {α} (l : List α) (k i : Nat) (d : α) :
+    (l.drop k).getD i d = l.getD (k + i) d := by
+  simp only [List.getD_eq_getElem?_getD, List.getElem?_drop]
+
+theorem getD_append_right' {α} (l₁ l₂ : List α) (i : Nat) (d : α) :
+    (l₁ ++ l₂).getD (l₁.length + i) d = l₂.getD i d := by
+  simp only [List.getD_eq_getElem?_getD]
+  rw [List.getElem?_append_right (by omega)]
+  congr 2; omega
+
+theorem take_two_eq {α} (l : List α) (d : α) (h : 2 ≤ l.length) :
+    l.take 2 = [l.getD 0 d, l.getD 1 d] := by
+  match l, h with
+  | a :: b :: t, _ => simp
+
+theorem take_four_eq {α} (l : List α) (d : α) (h : 4 ≤ l.length) :
+    l.take 4 = [l.getD 0 d, l.getD 1 d, l.getD 2 d, l.getD 3 d] := by
+  match l, h with
+  | a :: b :: c :: e :: t, _ => simp
+
 end GoBk.Bytes
